@@ -29,6 +29,7 @@ step-level lemmas about lookups are in Lemmas/RelMgrHandlesSteps.lean.
 -/
 import Osmium.Lemmas.RelMgrHandlesSpec
 import Osmium.Lemmas.RelMgrHandlesSteps
+import Osmium.Lemmas.SrcTie
 
 namespace Osmium.RelMgr.C11
 
@@ -402,5 +403,53 @@ example : (run (cfgAll false) f7Rels f7Ops).events =
 
 example : (run (cfgAll true) f7Rels f7Ops).events =
     [.complete 0 1 0 [(⟨.way, 10⟩, .found ⟨.way, 10, 7⟩)], .query .way 10 .absent] := by decide +kernel
+
+/-! ### source ties (tools/cxx2lean.py): `relations/members_database.hpp` `element` translated from the source -/
+section SrcTies
+open Osmium.Generated Osmium.CxxSem
+
+/-- `MembersDatabaseCommon::element::operator<` (`std::tie(member_id, member_num, relation_pos) < …`, with
+    `removed_value = SIZE_MAX` as `member_num` of a removed element) is the strict order whose `!(b < a)` the
+    model sorts with (`elemLe`), under the abstraction `SrcTie.elemOfSrc` -/
+theorem src_tie_element_lt (a b : Src.MembersDatabase.MembersDatabaseCommon.element)
+    (ha : Src.MembersDatabase.MembersDatabaseCommon.element.typed a = true)
+    (hb : Src.MembersDatabase.MembersDatabaseCommon.element.typed b = true) :
+    Src.MembersDatabase.MembersDatabaseCommon.element.op_lt_element a b
+      = !(elemLe (SrcTie.elemOfSrc b) (SrcTie.elemOfSrc a)) := by
+  simp only [Src.MembersDatabase.MembersDatabaseCommon.element.typed, Src.ItemStash.ItemStash.handle_type.typed,
+    Bool.and_eq_true, inU_iff, inS_iff] at ha hb
+  rw [Bool.eq_iff_iff]
+  by_cases r1 : a.member_num = 18446744073709551615 <;> by_cases r2 : b.member_num = 18446744073709551615 <;>
+  by_cases h1 : a.member_id < b.member_id <;> by_cases h2 : b.member_id < a.member_id <;>
+  by_cases h3 : a.member_num < b.member_num <;> by_cases h4 : b.member_num < a.member_num <;>
+  by_cases h5 : a.relation_pos < b.relation_pos <;>
+    simp [Src.MembersDatabase.MembersDatabaseCommon.element.op_lt_element, elemLe, numLt, numLe, SrcTie.elemOfSrc,
+      Src.MembersDatabase.MembersDatabaseCommon.element.removed_value, *] <;> omega
+
+/-- `is_removed()` / `remove()`: the marker value is the model's `num = none`; `remove()` changes nothing else -/
+theorem src_tie_element_removed (a : Src.MembersDatabase.MembersDatabaseCommon.element) :
+    Src.MembersDatabase.MembersDatabaseCommon.element.is_removed a = (SrcTie.elemOfSrc a).num.isNone ∧
+    ∃ a', Src.MembersDatabase.MembersDatabaseCommon.element.remove a = .normal a' () ∧
+      SrcTie.elemOfSrc a' = { SrcTie.elemOfSrc a with num := none } := by
+  constructor
+  · by_cases r : a.member_num = 18446744073709551615
+    · simp [Src.MembersDatabase.MembersDatabaseCommon.element.is_removed, SrcTie.elemOfSrc,
+        Src.MembersDatabase.MembersDatabaseCommon.element.removed_value, r]
+    · have r' : ¬ (18446744073709551615 : Int) = a.member_num := fun h => r h.symm
+      simp [Src.MembersDatabase.MembersDatabaseCommon.element.is_removed, SrcTie.elemOfSrc,
+        Src.MembersDatabase.MembersDatabaseCommon.element.removed_value, r, r']
+  · exact ⟨_, rfl, by simp [SrcTie.elemOfSrc, Src.MembersDatabase.MembersDatabaseCommon.element.removed_value]⟩
+
+/-- `compare_member_id` (the comparison of `find(id)` = `std::equal_range`) looks at `member_id` only, as `splitRange` does -/
+theorem src_tie_compare_member_id (a b : Src.MembersDatabase.MembersDatabaseCommon.element) :
+    Src.MembersDatabase.MembersDatabaseCommon.compare_member_id.op_call_element_element a b
+      = decide ((SrcTie.elemOfSrc a).mid < (SrcTie.elemOfSrc b).mid) := by
+  rw [Bool.eq_iff_iff]
+  refine Iff.trans ?_ decide_eq_true_iff.symm
+  simp [Src.MembersDatabase.MembersDatabaseCommon.compare_member_id.op_call_element_element, SrcTie.elemOfSrc]
+
+example : Src.MembersDatabase.MembersDatabaseCommon.element.typed ⟨-5, 18446744073709551615, 3, ⟨0⟩⟩ = true := by decide
+
+end SrcTies
 
 end Osmium.RelMgr.C11
